@@ -68,6 +68,21 @@ func shadowedBuiltins(env map[string]any) []string {
 	return names
 }
 
+// exprKnowsFunction reports whether name is a function (or a word operator) of the expression
+// library itself.
+func exprKnowsFunction(name string) bool {
+	switch name {
+	case "not", "in", "and", "or", "matches", "contains", "startsWith", "endsWith", "let", "if", "else", "true", "false", "nil":
+		return true
+	}
+	for _, n := range builtin.Names {
+		if n == name {
+			return true
+		}
+	}
+	return false
+}
+
 // getProgram returns a cached compiled program or compiles a new one. The functions named in
 // shadowed are left out of the compilation; programs are cached per expression and such set.
 func (e *ExprEvaluator) getProgram(expression string, shadowed []string) (*vm.Program, error) {
